@@ -54,83 +54,130 @@ SIGS = {'s_slice': ('b', 'small', 'small'), 's_index': ('b', 'small'), 's_neg_sl
         's_int_conv': ('int',), 's_pow': ('small',)}
 
 
-def run(n_per=25, seed=0, verbose=False):
-    sys.path.insert(0, loader.VERIF_ROOT)
+def _one(name, args):
+    """one case: ('ok'|'bad'|'incomplete', detail)"""
     native = importlib.import_module('spec._selfcheck')
     mod = loader.load_module('spec._selfcheck')
-    rnd = random.Random(seed)
-    bad = []
-    incomplete = []
-    total = 0
-    for name, kinds in SIGS.items():
-        fi = mod.get_func(name)
-        fn = getattr(native, name)
-        for _ in range(n_per):
-            args = [_gen(rnd, k) for k in kinds]
-            try:
-                want = ('val', fn(*args))
-            except Exception as ex:      # noqa
-                want = ('raise', type(ex).__name__)
-            E = Engine(None, {'unroll_limit': 200})
-            st = State()
-            env = {}
-            st.frames.append(Frame(env, mod, fi, None))
-            for p, a in zip([x.arg for x in fi.node.args.args], args):
-                env[p] = _sym(E, st, a, p)
-            try:
-                outs = E.run_body(fi, st)
-            except Unsupported as ex:
-                bad.append((name, args, 'unsupported: %s' % ex))
+    fi = mod.get_func(name)
+    fn = getattr(native, name)
+    try:
+        want = ('val', fn(*args))
+    except Exception as ex:      # noqa
+        want = ('raise', type(ex).__name__)
+    E = Engine(None, {'unroll_limit': 200})
+    st = State()
+    env = {}
+    st.frames.append(Frame(env, mod, fi, None))
+    for p, a in zip([x.arg for x in fi.node.args.args], args):
+        env[p] = _sym(E, st, a, p)
+    try:
+        outs = E.run_body(fi, st)
+    except Unsupported as ex:
+        return 'bad', 'unsupported: %s' % ex
+
+    # soundness: CPython's outcome must be POSSIBLE under the engine's semantics (else the engine excludes real behaviour:
+    # unsound); completeness: it should also be FORCED (else some uninterpreted symbol is under-constrained: incomplete,
+    # which costs proofs / yields spurious counter-models that the native replay refutes, but never a wrong proof)
+    def eq(v, c):
+        if isinstance(c, tuple):
+            if not isinstance(v, tuple) or len(v) != len(c):
+                return z3.BoolVal(False)
+            return z3.And([eq(a, b) for a, b in zip(v, c)]) if c else z3.BoolVal(True)
+        if isinstance(c, bool):
+            return zbool(v) == c if isinstance(v, (bool, SBool)) else z3.BoolVal(False)
+        if isinstance(c, int):
+            return zint(v) == c if is_intlike(v) and not isinstance(v, (bool, SBool)) else z3.BoolVal(False)
+        if isinstance(c, bytes):
+            return zbytes(v) == bytes_const(c) if is_byteslike(v) else z3.BoolVal(False)
+        return z3.BoolVal(v is c or v == c)
+    possible = False
+    forced = True
+    for o in outs:
+        sol = z3.Solver()
+        sol.set('timeout', 20000)
+        sol.add(*o[1].pc)
+        if o[0] == 'raise':
+            same = want[0] == 'raise' and o[2].name() == want[1]
+            r = sol.check()
+            if r == z3.unsat:
                 continue
-            # soundness: CPython's outcome must be POSSIBLE under the engine's semantics (else the engine excludes real behaviour:
-            # unsound); completeness: it should also be FORCED (else some uninterpreted symbol is under-constrained: incomplete,
-            # which costs proofs / yields spurious counter-models that the native replay refutes, but never a wrong proof)
-            def eq(v, c):
-                if isinstance(c, tuple):
-                    if not isinstance(v, tuple) or len(v) != len(c):
-                        return z3.BoolVal(False)
-                    return z3.And([eq(a, b) for a, b in zip(v, c)]) if c else z3.BoolVal(True)
-                if isinstance(c, bool):
-                    return zbool(v) == c if isinstance(v, (bool, SBool)) else z3.BoolVal(False)
-                if isinstance(c, int):
-                    return zint(v) == c if is_intlike(v) and not isinstance(v, (bool, SBool)) else z3.BoolVal(False)
-                if isinstance(c, bytes):
-                    return zbytes(v) == bytes_const(c) if is_byteslike(v) else z3.BoolVal(False)
-                return z3.BoolVal(v is c or v == c)
-            possible = False
-            forced = True
-            for o in outs:
-                sol = z3.Solver()
-                sol.set('timeout', 20000)
-                sol.add(*o[1].pc)
-                if o[0] == 'raise':
-                    same = want[0] == 'raise' and o[2].name() == want[1]
-                    r = sol.check()
-                    if r == z3.unsat:
-                        continue
-                    if same:
-                        possible = True
-                    else:
-                        forced = False
-                else:
-                    v = o[2] if o[0] == 'ret' else None
-                    if want[0] != 'val':
-                        if sol.check() != z3.unsat:
-                            forced = False
-                        continue
-                    e = eq(v, want[1])
-                    sol.push()
-                    sol.add(e)
-                    if sol.check() != z3.unsat:
-                        possible = True
-                    sol.pop()
-                    sol.add(z3.Not(e))
-                    if sol.check() != z3.unsat:
-                        forced = False
+            if same:
+                possible = True
+            else:
+                forced = False
+        else:
+            v = o[2] if o[0] == 'ret' else None
+            if want[0] != 'val':
+                if sol.check() != z3.unsat:
+                    forced = False
+                continue
+            e = eq(v, want[1])
+            sol.push()
+            sol.add(e)
+            if sol.check() != z3.unsat:
+                possible = True
+            sol.pop()
+            sol.add(z3.Not(e))
+            if sol.check() != z3.unsat:
+                forced = False
+    if not possible:
+        return 'bad', 'UNSOUND: native outcome %r is excluded by the engine' % (want,)
+    return ('ok', '') if forced else ('incomplete', '')
+
+
+def _child(conn, name, args):
+    try:
+        conn.send(_one(name, args))
+    except Exception as ex:      # noqa
+        conn.send(('bad', 'checker error: %r' % ex))
+    conn.close()
+
+
+def run(n_per=25, seed=0, verbose=False, case_timeout=90, jobs=8):
+    """every case runs in its own forked child: z3 does not always honour its time-out on long sequence terms, and a case the solver
+    does not answer within case_timeout counts as incomplete (undecided), never as sound"""
+    import multiprocessing as mp
+    import time
+    sys.path.insert(0, loader.VERIF_ROOT)
+    importlib.import_module('spec._selfcheck')
+    rnd = random.Random(seed)
+    cases = [(name, [_gen(rnd, k) for k in kinds]) for name, kinds in SIGS.items() for _ in range(n_per)]
+    ctx = mp.get_context('fork')
+    bad, incomplete, total = [], [], 0
+    running = []
+    todo = list(cases)
+    while todo or running:
+        while todo and len(running) < jobs:
+            name, args = todo.pop(0)
+            a, b = ctx.Pipe(duplex=False)
+            pr = ctx.Process(target=_child, args=(b, name, args))
+            pr.start()
+            b.close()
+            running.append((pr, a, name, args, time.time()))
+        time.sleep(0.05)
+        for it in list(running):
+            pr, a, name, args, t0 = it
+            res = None
+            if a.poll():
+                try:
+                    res = a.recv()
+                except EOFError:
+                    res = ('bad', 'checker error: child died')
+            elif not pr.is_alive():
+                res = ('bad', 'checker error: child died')
+            elif time.time() - t0 > case_timeout:
+                pr.kill()
+                res = ('incomplete', 'solver did not answer in %d s' % case_timeout)
+            if res is None:
+                continue
+            pr.join(1)
+            running.remove(it)
             total += 1
-            if not possible:
-                bad.append((name, args, 'UNSOUND: native outcome %r is excluded by the engine' % (want,)))
-            elif not forced:
+            if verbose:
+                print('case', name, repr(args)[:160], res, flush=True)
+            if res[0] == 'bad':
+                bad.append((name, args, res[1]))
+            elif res[0] == 'incomplete':
                 incomplete.append((name, args))
     return total, bad, incomplete
 
